@@ -85,6 +85,16 @@ func (g *Engine) Start() error {
 	// The poller goroutines read isOneshot when they start: set it first.
 	g.isOneshot = (g.EpollMod == EPOLLET && g.EPOLLONESHOT == EPOLLONESHOT)
 
+	// The read executor must exist before any descriptor can report an event:
+	// a datagram already queued at a UDP listener, or a connection accepted
+	// while Start is still running, is dispatched through it at once.
+	if g.AsyncReadInPoller {
+		if g.IOExecute == nil {
+			g.ioTaskPool = taskpool.NewIO(0, 0, g.ReadBufferSize)
+			g.IOExecute = g.ioTaskPool.Go
+		}
+	}
+
 	// Start IO pollers.
 	for i := 0; i < g.NPoller; i++ {
 		g.pollers[i].ReadBuffer = make([]byte, g.ReadBufferSize)
@@ -115,18 +125,17 @@ func (g *Engine) Start() error {
 				_ = udpListeners[j].Close()
 			}
 
+			if g.ioTaskPool != nil {
+				g.ioTaskPool.Stop()
+				g.ioTaskPool = nil
+				g.IOExecute = nil
+			}
+
 			return err
 		}
 	}
 
 	g.Timer.Start()
-
-	if g.AsyncReadInPoller {
-		if g.IOExecute == nil {
-			g.ioTaskPool = taskpool.NewIO(0, 0, g.ReadBufferSize)
-			g.IOExecute = g.ioTaskPool.Go
-		}
-	}
 
 	if len(g.Addrs) == 0 {
 		logging.Info("NBIO Engine[%v] start with [%v eventloop, MaxOpenFiles: %v]",
